@@ -3,6 +3,8 @@ CONSTANTS
   VsCases <- VsCasesAll
   SdCases <- NoCases
   HlCases <- NoCases
+  BtCases <- NoCases
+  CpCases <- NoCases
   MaxOps = 2
   KeepHist = TRUE
 VIEW view
